@@ -165,8 +165,21 @@ class TableGen:
                 out += bytes([v[2]])
             elif k < 0.8:
                 out += self.string()
-            elif k < 0.9:
+            elif k < 0.88:
                 out += b'\x02' + mb(rng.choice([0x41, 0xE9, 0x20AC, 0x10000]))
+            elif k < 0.94:
+                # extension = [switchPage] (EXT_I termstr | EXT_T index | EXT) inside an attribute / PI value; the
+                # single-octet forms are ignored by every language, a piece that delivers nothing after one that did
+                if rng.random() < 0.3:
+                    pg = rng.choice(self.pages('attrs')); out += b'\x00' + bytes([pg]); self.attrpage = pg
+                tok = rng.choice([0xC0, 0xC1, 0xC2, 0xC0, 0x40, 0x41, 0x42, 0x80, 0x81, 0x82])
+                exts = self.rows(self.lang, 'exts')
+                if tok >= 0xC0:
+                    out += bytes([tok])
+                elif tok >= 0x80:
+                    out += bytes([tok]) + mb(rng.choice(exts)[1] if exts and rng.random() < 0.7 else self.strref(b'var'))
+                else:
+                    out += bytes([tok]) + self.text(4).replace(b'\x00', b'') + b'\x00'
             else:
                 n = rng.choice([0, 1, 4, 7, rng.randint(0, 9)])
                 out += b'\xC3' + mb(n) + bytes(rng.randrange(256) for _ in range(n))
